@@ -219,4 +219,13 @@ def main() -> None:
 
 
 if __name__ == "__main__":
-    main()
+    if "--in-thread" in sys.argv:
+        # the whole history (and the snapshot) runs in ONE worker thread that is started and
+        # joined: no race, only "not the main thread"
+        import threading
+
+        t = threading.Thread(target=main, name="importer")
+        t.start()
+        t.join()
+    else:
+        main()
